@@ -43,7 +43,7 @@ func init() {
 
 // ---------------------------------------------------------------- canonical result
 
-func b01(b bool) byte {
+func c13b01(b bool) byte {
 	if b {
 		return '1'
 	}
@@ -54,10 +54,10 @@ func c13metaStr(m *insts.KernelCodeObjectMeta) string {
 	if m == nil {
 		return "meta=nil"
 	}
-	en := []byte{b01(m.EnableSgprPrivateSegmentBuffer), b01(m.EnableSgprDispatchPtr), b01(m.EnableSgprQueuePtr),
-		b01(m.EnableSgprKernargSegmentPtr), b01(m.EnableSgprDispatchID), b01(m.EnableSgprFlatScratchInit),
-		b01(m.EnableSgprPrivateSegmentSize), b01(m.EnableSgprGridWorkgroupCountX), b01(m.EnableSgprGridWorkgroupCountY),
-		b01(m.EnableSgprGridWorkgroupCountZ)}
+	en := []byte{c13b01(m.EnableSgprPrivateSegmentBuffer), c13b01(m.EnableSgprDispatchPtr), c13b01(m.EnableSgprQueuePtr),
+		c13b01(m.EnableSgprKernargSegmentPtr), c13b01(m.EnableSgprDispatchID), c13b01(m.EnableSgprFlatScratchInit),
+		c13b01(m.EnableSgprPrivateSegmentSize), c13b01(m.EnableSgprGridWorkgroupCountX), c13b01(m.EnableSgprGridWorkgroupCountY),
+		c13b01(m.EnableSgprGridWorkgroupCountZ)}
 	return fmt.Sprintf("r1=%08x r2=%08x r3=%08x karg=%d lds=%d priv=%d entry=%d en=%s cv=%d.%d mk=%d mv=%d.%d.%d sgpr=%d vgpr=%d",
 		m.ComputePgmRsrc1, m.ComputePgmRsrc2, m.ComputePgmRsrc3, m.KernargSegmentByteSize, m.GroupSegmentByteSize,
 		m.PrivateSegmentByteSize, m.KernelCodeEntryByteOffset, en, m.CodeVersionMajor, m.CodeVersionMinor, m.MachineKind,
@@ -229,7 +229,7 @@ type c13meta struct {
 func (m c13meta) String() string {
 	en := make([]byte, 10)
 	for i := range en {
-		en[i] = b01(m.en[i])
+		en[i] = c13b01(m.en[i])
 	}
 	return fmt.Sprintf("r1=%08x r2=%08x r3=%08x karg=%d lds=%d priv=%d entry=%d en=%s cv=%d.%d mk=%d mv=%d.%d.%d sgpr=%d vgpr=%d",
 		m.r1, m.r2, m.r3, m.karg, m.lds, m.priv, m.entry, en, m.cvMaj, m.cvMin, m.mk, m.mvMaj, m.mvMin, m.mvSt, m.sgpr, m.vgpr)
@@ -914,7 +914,7 @@ func (e *c13env) shipped() {
 				names := []string{"private_segment_buffer", "dispatch_ptr", "queue_ptr", "kernarg_segment_ptr", "dispatch_id", "flat_scratch_init", "private_segment_size"}
 				for i, n := range names {
 					if (st.props>>uint(i)&1 == 1) != m.en[i] {
-						diffs = append(diffs, fmt.Sprintf("enable_sgpr_%s stored %d loaded %s", n, st.props>>uint(i)&1, string(b01(m.en[i]))))
+						diffs = append(diffs, fmt.Sprintf("enable_sgpr_%s stored %d loaded %s", n, st.props>>uint(i)&1, string(c13b01(m.en[i]))))
 					}
 				}
 				if st.entry != 0 && ks0(byName[k.Name+".kd"]).Value+st.entry != k.Value {
@@ -1188,7 +1188,7 @@ func (e *c13env) unit(rng *Rng, n int) {
 		})
 		ans := "fault:" + f
 		if f == "" {
-			ans = fmt.Sprintf("is=%c %s", b01(is), c13canon(co))
+			ans = fmt.Sprintf("is=%c %s", c13b01(is), c13canon(co))
 		}
 		in := hexb(b)
 		if in == "" {
